@@ -73,6 +73,9 @@ pub enum Shape {
     /// block to block (7 bits) and — for k > 0 — a NON-ZERO smallest block minimum: the shape for which a
     /// sample/offset block encoding beats one global min/max width
     Saw { k: u8 },
+    /// (seed C09h) sorted ramp m*2^32 - 40 + step*i: consecutive values of one block lie on both sides of a multiple of
+    /// 2^32 (the carry out of the low 32 bits of base + delta)
+    Cross32 { m: u8, step: u8 },
 }
 
 #[derive(Clone, Debug, Hash, Serialize, Deserialize, PartialEq, Eq)]
@@ -194,6 +197,7 @@ pub fn expand(src: &Src, d: &Dom) -> Vec<i128> {
                     Shape::HighBase { k } => (1i128 << k) + ii % 3,
                     Shape::WideNoise { k } => ((7 * ii) % 13) << k,
                     Shape::Saw { k } => (if k == 0 { 0 } else { 1i128 << k }) + ((ii / 128) % 8) * 16 + (7 * ii) % 13,
+                    Shape::Cross32 { m, step } => ((m as i128) << 32) - 40 + (step as i128) * ii,
                 };
                 v.push(d.clamp(x));
             }
@@ -278,6 +282,11 @@ fn shapes(d: &Dom) -> Vec<Shape> {
     for k in [0u8, 6, 14, 40, 62] {
         if k == 0 || (k as u32) + 1 < maxk {
             v.push(Shape::Saw { k });
+        }
+    }
+    if maxk >= 36 {
+        for (m, step) in [(1u8, 3u8), (1, 1), (5, 3)] {
+            v.push(Shape::Cross32 { m, step });
         }
     }
     v
